@@ -99,8 +99,9 @@ def run(tier, rep):
     frames = log_frames(60 if quick else 2000)
     for ident, pn, pl in cases[:: (4 if quick else 1)]:
         frames.append(("gen:" + ident, frame_of(pl)))
-    for src, fr in frames:
-        rid, r, msg = corp.add(None, 1, keep_msg=True, via="parse", frame=fr, validate=1, ident=src, profile="frame")
+    for fi, (src, fr) in enumerate(frames):
+        # (validation on / off alternately: for a valid frame the result is the same)
+        rid, r, msg = corp.add(None, 1, keep_msg=True, via="parse", frame=fr, validate=fi % 2, ident=src, profile="frame")
         if msg is not None:
             r["sd"] = message_rec.state_digest(msg)
             o = message_rec.do_op(msg, "serialize", fields)
